@@ -383,6 +383,9 @@ func c14Polygons(c *fw.Ctx, idx int) {
 		npoly = r.Range(2, 4)
 	}
 	cell := int64(r.Range(40, 20000))
+	if r.Chance(1, 5) {
+		cell = int64(r.Range(20000, 100000)) // the whole extent the property names
+	}
 	var polys []c14poly
 	for pi := 0; pi < npoly; pi++ {
 		// member pi lives in its own cell of a coarse 2x2 grid
@@ -492,6 +495,31 @@ func c14Polygons(c *fw.Ctx, idx int) {
 	if r.Chance(1, 4) {
 		c14RefusedCalls(c, layout)
 	}
+	if r.Chance(1, 3) {
+		// the calculator object fed one polygon at a time and asked after every one, twice
+		calc := xy.NewAreaCentroidCalculator(layout)
+		for i := range gp {
+			pcx, pcy, ptx, pty, pz := c14AreaCentroid(polys[:i+1], base)
+			for ask := 0; ask < 2; ask++ {
+				var g2 geom.Coord
+				if c.Guard("panic", func() {
+					if ask == 0 {
+						calc.AddPolygon(gp[i])
+					}
+					g2 = calc.GetCentroid()
+				}) {
+					return
+				}
+				if pz {
+					continue
+				}
+				c.Count("area_calculator_asked_between_additions")
+				if !c14CheckCent(c, fmt.Sprintf("AreaCentroidCalculator after %d polygons (ask %d)", i+1, ask+1), g2, pcx, pcy, ptx, pty) {
+					return
+				}
+			}
+		}
+	}
 	var got geom.Coord
 	if c.Guard("panic", func() { got = xy.PolygonsCentroid(gp[0], gp[1:]...) }) {
 		return
@@ -593,7 +621,33 @@ func c14ZeroArea(c *fw.Ctx, idx int) {
 	if c.Guard("panic", func() { got = xy.PolygonsCentroid(gp[0], gp[1:]...) }) {
 		return
 	}
-	c14CheckCentF(c, "PolygonsCentroid(zero area)", got, cx, cy, tolx, toly)
+	if !c14CheckCentF(c, "PolygonsCentroid(zero area)", got, cx, cy, tolx, toly) {
+		return
+	}
+	// the calculator object fed one polygon at a time and asked after every one,
+	// twice: each answer is the centroid of what has been added so far
+	calc := xy.NewAreaCentroidCalculator(layout)
+	for i := range gp {
+		pcx, pcy, ptx, pty, pz := c14LineCentroid(lines[:i+1])
+		for ask := 0; ask < 2; ask++ {
+			var g2 geom.Coord
+			if c.Guard("panic", func() {
+				if ask == 0 {
+					calc.AddPolygon(gp[i])
+				}
+				g2 = calc.GetCentroid()
+			}) {
+				return
+			}
+			if pz {
+				continue
+			}
+			c.Count("area_calculator_asked_between_additions")
+			if !c14CheckCentF(c, fmt.Sprintf("AreaCentroidCalculator after %d zero-area polygons (ask %d)", i+1, ask+1), g2, pcx, pcy, ptx, pty) {
+				return
+			}
+		}
+	}
 }
 
 // (d) lines and points
